@@ -852,7 +852,7 @@ func (ex *Exec) callFn(g *G, fn *ssa.Function, args []Value, env []Value, retTo 
 		return false // dependencies are initialised lazily, on first use of their globals
 	}
 	name := fn.String()
-	if h, ok := ex.cfg.icpt[name]; ok {
+	if h, ok := ex.cfg.icpt[name]; ok && !(h.Kind == "model" && g.top != nil && g.top.fn == h.Fn) {
 		ex.res.Intercepts[name]++
 		return ex.runIntercept(g, h, name, fn, args, retTo)
 	}
@@ -903,6 +903,16 @@ func (ex *Exec) runIntercept(g *G, h *Intercept, name string, fn *ssa.Function, 
 		default:
 			r = ex.zero(rt)
 		}
+		if retTo != nil {
+			ex.set(g.top, retTo, r)
+		}
+		return false
+	case "nativeobj":
+		// returns an inert object: every method call on it is a no-op returning zero values
+		rt := fn.Signature.Results()
+		obj := &NativeObj{Kind: name}
+		obj.Call = func(ex *Exec, g *G, method string, args []Value) Value { return nil }
+		var r Value = IfaceV{T: rt.At(0).Type(), V: obj}
 		if retTo != nil {
 			ex.set(g.top, retTo, r)
 		}
@@ -1025,6 +1035,7 @@ type NativeObj struct {
 // Returns when g.status != GRunnable or a yield was requested.
 func (ex *Exec) runG(g *G) {
 	g.yield = false
+	ex.cur = g
 	for g.status == GRunnable && g.top != nil && !g.yield {
 		fr := g.top
 		if fr.ip >= len(fr.block.Instrs) {
@@ -1219,7 +1230,18 @@ func (ex *Exec) execInstr(g *G, fr *Frame, ins ssa.Instruction) {
 			ex.goPanic(g, "nil pointer dereference (store)", nil)
 			return
 		}
-		ex.store(p, ex.get(fr, x.Val))
+		val := ex.get(fr, x.Val)
+		if t, ok := val.(*Term); ok && p.Sym == nil {
+			if old, ok := p.C.E[p.I].(*Term); ok && old.S != t.S {
+				switch {
+				case (old.S.K == SF32 || old.S.K == SF64) && t.S.K == SBV:
+					val = ex.ts.FpFromBits(t)
+				case old.S.K == SBV && (t.S.K == SF32 || t.S.K == SF64):
+					val = ex.ts.FpToBits(t)
+				}
+			}
+		}
+		ex.store(p, val)
 		fr.ip++
 	case *ssa.If:
 		c := ex.get(fr, x.Cond).(*Term)
@@ -1328,6 +1350,16 @@ func (ex *Exec) unop(g *G, fr *Frame, x *ssa.UnOp) {
 		r := ex.load(p)
 		if r == nil {
 			panic(abortf("load of unset memory in %s", fr.fn))
+		}
+		// type punning through unsafe.Pointer casts: *(*uint64)(unsafe.Pointer(&f)) and back
+		if t, ok := r.(*Term); ok {
+			if _, _, isInt := intInfo(x.Type()); isInt && (t.S.K == SF32 || t.S.K == SF64) {
+				r = ex.ts.FpToBits(t)
+			} else if fs, isF := floatSort(x.Type()); isF && t.S.K == SBV {
+				if (fs.K == SF32 && t.S.W == 32) || (fs.K == SF64 && t.S.W == 64) {
+					r = ex.ts.FpFromBits(t)
+				}
+			}
 		}
 		ex.set(fr, x, r)
 	case token.NOT:
